@@ -352,7 +352,9 @@ func TestWorker(t *testing.T) {
 				onlyRace = false
 			}
 		}
-		if len(vs) > 0 && !onlyRace {
+		if len(vs) > 0 && !onlyRace && !gen.IsCold(seed) {
+			// (a cold-start run cannot be repeated in this process - it is no longer cold; the driver confirms
+			// it by replaying the record in a fresh process)
 			// a violation is a property of (scenario, schedule): it must show again when the very same run is
 			// repeated; what does not is counted and not reported (the race detector reports once per process)
 			sc2 := gen.Generate(prop, seed)
